@@ -1,209 +1,13 @@
-(* Proofs for C12.  The unbounded arguments (dr, off, channel index, DevAddr,
-   beacon time : Z) are reduced to the finite key sets of the dumped tables
-   by lookup lemmas; the remaining finite obligations are decided by
-   vm_compute over LWGen.BandGen and lifted with forallb_forall. *)
+(* Proofs for C12 (beyond Rx1BaseProofs.v): invalid arguments, regional
+   formula, monotone / step rule, RX1 channel and frequency, ping slot. *)
 From Coq Require Import List ZArith Bool String Lia.
-From LW Require Import Base.Outcome Band.Types Band.Lookup Band.Regional Band.Rx1Spec.
+From LW Require Import Base.Outcome Band.Types Band.Lookup Band.Regional Band.Rx1Spec Band.Rx1Checks
+     Band.Rx1BaseProofs.
 From LWGen Require Import BandGen KnownGen.
 Import ListNotations.
 Open Scope Z_scope.
 
-(* ---- generic list / map lemmas ------------------------------------------- *)
-
-Lemma zrange_from_In x lo n :
-  In x (zrange_from lo n) <-> lo <= x < lo + Z.of_nat n.
-Proof.
-  revert lo; induction n as [|n IH]; intros lo; cbn [zrange_from In].
-  - split; [tauto | lia].
-  - rewrite IH. lia.
-Qed.
-
-Lemma zrange_In x lo hi : lo <= x <= hi -> In x (zrange lo hi).
-Proof. intros H. unfold zrange. apply zrange_from_In. lia. Qed.
-
-Lemma zrange_In_inv x lo hi : In x (zrange lo hi) -> lo <= x <= hi.
-Proof. unfold zrange. intros H. apply zrange_from_In in H. lia. Qed.
-
-Lemma zfind_Some_In {A} k (m : zmap A) v : zfind k m = Some v -> In (k, v) m.
-Proof.
-  induction m as [|[k' v'] m IH]; cbn [zfind]; [discriminate|].
-  destruct (Z.eqb_spec k k') as [->|_].
-  - intros [= ->]. now left.
-  - intros H. right. now apply IH.
-Qed.
-
-Lemma zfind_None_notin {A} k (m : zmap A) : zfind k m = None -> ~ In k (zkeys m).
-Proof.
-  induction m as [|[k' v'] m IH]; cbn [zfind zkeys map fst In]; [tauto|].
-  destruct (Z.eqb_spec k k') as [->|Hne]; [discriminate|].
-  intros H [E|Hin]; [congruence|]. now apply IH.
-Qed.
-
-Lemma zindex_Ok_range {A} (l : list A) i a : zindex l i = Ok a -> 0 <= i < zlen l.
-Proof.
-  unfold zindex, zlen. destruct (Z.ltb_spec i 0); [discriminate|].
-  destruct (nth_error l (Z.to_nat i)) eqn:E; [|discriminate].
-  intros _. assert (Z.to_nat i < List.length l)%nat by (apply nth_error_Some; congruence). lia.
-Qed.
-
-Lemma zindex_in_range {A} (l : list A) i : 0 <= i < zlen l -> exists a, zindex l i = Ok a.
-Proof.
-  unfold zindex, zlen. intros H. destruct (Z.ltb_spec i 0); [lia|].
-  destruct (nth_error l (Z.to_nat i)) eqn:E; [eauto|].
-  apply nth_error_None in E. lia.
-Qed.
-
-Lemma zindex_Ok_In {A} (l : list A) i a : zindex l i = Ok a -> In a l.
-Proof.
-  unfold zindex. destruct (i <? 0); [discriminate|].
-  destruct (nth_error l (Z.to_nat i)) eqn:E; [|discriminate].
-  intros [= ->]. eapply nth_error_In; eauto.
-Qed.
-
-Lemma oz_eqb_eq (x y : outcome Z) : outcome_eqb Z.eqb x y = true -> x = y.
-Proof.
-  destruct x, y; cbn; try discriminate; try reflexivity.
-  intros H. apply Z.eqb_eq in H. now subst.
-Qed.
-
-(* ---- the accepted (dr, off) pairs are a finite, enumerable set -------------- *)
-
-Definition generic_domain (t : tables) : list (Z * Z) :=
-  flat_map (fun e => map (pair (fst e)) (zrange 0 (zlen (snd e) - 1))) (t_rx1 t).
-
-Definition as923_domain : list (Z * Z) :=
-  flat_map (fun dr => map (pair dr) (zrange 0 7)) (zrange 0 7).
-
-Definition rx1_domain (c : band_cfg) : list (Z * Z) :=
-  match c_kind c with
-  | KAS923 => as923_domain
-  | _ => generic_domain (c_tab c)
-  end.
-
-Lemma generic_rx1_dr_cases t dr off :
-  generic_rx1_dr t dr off = Err \/
-  (exists r, generic_rx1_dr t dr off = Ok r /\ In (dr, off) (generic_domain t)).
-Proof.
-  unfold generic_rx1_dr. destruct (zfind dr (t_rx1 t)) as [row|] eqn:F; [|now left].
-  destruct (Z.ltb_spec off 0); cbn [orb]; [now left|].
-  destruct (Z.gtb_spec off (zlen row - 1)); [now left|].
-  right. destruct (zindex_in_range row off) as [a Ha]; [lia|].
-  exists a. split; [exact Ha|].
-  unfold generic_domain. apply in_flat_map. exists (dr, row). split.
-  - now apply zfind_Some_In.
-  - cbn [fst snd]. apply in_map. apply zrange_In. lia.
-Qed.
-
-Lemma as923_rx1_dr_cases dw dr off :
-  as923_rx1_dr dw dr off = Err \/
-  (exists r, as923_rx1_dr dw dr off = Ok r /\ In (dr, off) as923_domain).
-Proof.
-  unfold as923_rx1_dr.
-  destruct (Z.ltb_spec off 0); cbn [orb]; [now left|].
-  destruct (Z.gtb_spec off 7); cbn [orb]; [now left|].
-  destruct (Z.ltb_spec dr 0); cbn [orb]; [now left|].
-  destruct (Z.gtb_spec dr 7); cbn [orb]; [now left|].
-  right.
-  destruct (zindex_in_range [0; 1; 2; 3; 4; 5; -1; -2] off) as [e He]; [unfold zlen; cbn; lia|].
-  rewrite He. eexists. split; [reflexivity|].
-  unfold as923_domain. apply in_flat_map. exists dr. split; [apply zrange_In; lia|].
-  apply in_map. apply zrange_In. lia.
-Qed.
-
-Lemma get_rx1_dr_cases c dr off :
-  get_rx1_dr c dr off = Err \/
-  (exists r, get_rx1_dr c dr off = Ok r /\ In (dr, off) (rx1_domain c)).
-Proof.
-  unfold get_rx1_dr, rx1_domain.
-  destruct (c_kind c); try apply generic_rx1_dr_cases. apply as923_rx1_dr_cases.
-Qed.
-
-(* errors, never panics: for ANY tables, all integer arguments *)
-Lemma rx1_no_panic_any c dr off : get_rx1_dr c dr off <> Panic.
-Proof.
-  destruct (get_rx1_dr_cases c dr off) as [E|[r [E _]]]; rewrite E; discriminate.
-Qed.
-
-Lemma rx1_Ok_in_domain c dr off r : get_rx1_dr c dr off = Ok r -> In (dr, off) (rx1_domain c).
-Proof.
-  intros H. destruct (get_rx1_dr_cases c dr off) as [E|[r' [_ Hin]]]; [congruence|exact Hin].
-Qed.
-
-(* ---- lifting a computed check over all configurations and all cells ------- *)
-
-Definition all_cells (P : band_cfg -> Z -> Z -> bool) : bool :=
-  forallb (fun c => forallb (fun p => P c (fst p) (snd p)) (rx1_domain c)) band_configs.
-
-Lemma all_cells_lift P : all_cells P = true ->
-  forall c, In c band_configs -> forall dr off r, get_rx1_dr c dr off = Ok r -> P c dr off = true.
-Proof.
-  unfold all_cells. intros H c Hc dr off r Hr.
-  rewrite forallb_forall in H. specialize (H c Hc). rewrite forallb_forall in H.
-  exact (H (dr, off) (rx1_Ok_in_domain _ _ _ _ Hr)).
-Qed.
-
-(* membership in the generated exception list *)
-Definition cell_eqb (a b : string * Z * Z) : bool :=
-  String.eqb (fst (fst a)) (fst (fst b)) && (snd (fst a) =? snd (fst b)) && (snd a =? snd b).
-
-Lemma cell_eqb_eq a b : cell_eqb a b = true -> a = b.
-Proof.
-  destruct a as [[n d] o], b as [[n' d'] o']. unfold cell_eqb. cbn [fst snd].
-  rewrite !andb_true_iff. intros [[H1 H2] H3].
-  apply String.eqb_eq in H1. apply Z.eqb_eq in H2. apply Z.eqb_eq in H3. now subst.
-Qed.
-
-Definition cell_known (x : string * Z * Z) : bool := existsb (cell_eqb x) c12_known_cells.
-
-Lemma cell_known_In x : cell_known x = true -> In x c12_known_cells.
-Proof.
-  unfold cell_known. rewrite existsb_exists. intros [y [Hy E]]. apply cell_eqb_eq in E. now subst.
-Qed.
-
-(* ---- every accepted pair maps to a defined downlink data-rate -------------- *)
-
-Definition defined_check (c : band_cfg) (dr off : Z) : bool :=
-  rx1_defined_rule (c_tab c) (get_rx1_dr c dr off) || cell_known (c_name c, dr, off).
-
-Lemma defined_check_all : all_cells defined_check = true.
-Proof. vm_compute. reflexivity. Qed.
-
-Lemma rx1_defined c : In c band_configs -> forall dr off r,
-  get_rx1_dr c dr off = Ok r ->
-  dr_defined_down (c_tab c) r = true \/ In (c_name c, dr, off) c12_known_cells.
-Proof.
-  intros Hc dr off r Hr.
-  pose proof (all_cells_lift _ defined_check_all c Hc dr off r Hr) as H.
-  unfold defined_check in H. rewrite Hr in H. cbn [rx1_defined_rule] in H.
-  apply orb_true_iff in H as [H|H]; [now left | right; now apply cell_known_In].
-Qed.
-
-(* the listed exceptions are real: each is accepted and yields an undefined data-rate *)
-Definition refuted_check (x : string * Z * Z) : bool :=
-  existsb (fun c => String.eqb (c_name c) (fst (fst x))
-                    && match get_rx1_dr c (snd (fst x)) (snd x) with
-                       | Ok r => negb (dr_defined_down (c_tab c) r)
-                       | _ => false
-                       end) band_configs.
-
-Lemma refuted_all : forallb refuted_check c12_known_cells = true.
-Proof. vm_compute. reflexivity. Qed.
-
-Lemma rx1_known_refuted : forall name dr off, In (name, dr, off) c12_known_cells ->
-  exists c r, In c band_configs /\ c_name c = name /\ get_rx1_dr c dr off = Ok r
-              /\ dr_defined_down (c_tab c) r = false.
-Proof.
-  intros name dr off Hin. pose proof refuted_all as H. rewrite forallb_forall in H.
-  specialize (H _ Hin). unfold refuted_check in H. cbn [fst snd] in H.
-  apply existsb_exists in H as [c [Hc H]]. apply andb_true_iff in H as [Hn H].
-  apply String.eqb_eq in Hn.
-  destruct (get_rx1_dr c dr off) as [r| | |] eqn:E; try discriminate.
-  exists c, r. repeat split; auto. now apply negb_true_iff in H.
-Qed.
-
 (* ---- invalid arguments give an error ------------------------------------------ *)
-
-Definition valid_check (c : band_cfg) (dr off : Z) : bool := negb (rx1_args_invalid dr off).
 
 Lemma valid_check_all : all_cells valid_check = true.
 Proof. vm_compute. reflexivity. Qed.
@@ -225,9 +29,6 @@ Qed.
 
 (* ---- formula ------------------------------------------------------------------ *)
 
-Definition formula_domain : list (Z * Z) :=
-  flat_map (fun dr => map (pair dr) (zrange 0 5)) (zrange 0 7).
-
 Lemma spec_formula_domain reg dw dr off e :
   spec_rx1_formula reg dw dr off = Some e -> In (dr, off) formula_domain.
 Proof.
@@ -243,24 +44,9 @@ Proof.
   apply in_map. now apply zrange_In.
 Qed.
 
-Definition formula_check : bool :=
-  forallb (fun c =>
-    match region_of (c_name c) with
-    | None => false
-    | Some reg =>
-      forallb (fun p => rx1_formula_rule reg (c_dwell c) (fst p) (snd p) (get_rx1_dr c (fst p) (snd p)))
-              formula_domain
-    end) band_configs.
-
 Lemma formula_check_ok : formula_check = true.
 Proof. vm_compute. reflexivity. Qed.
 
-Lemma region_known c : In c band_configs -> exists reg, region_of (c_name c) = Some reg.
-Proof.
-  intros Hc. pose proof formula_check_ok as H. unfold formula_check in H.
-  rewrite forallb_forall in H. specialize (H c Hc).
-  destruct (region_of (c_name c)); [eauto | discriminate].
-Qed.
 
 Lemma rx1_formula c : In c band_configs -> forall reg, region_of (c_name c) = Some reg ->
   forall dr off e, spec_rx1_formula reg (c_dwell c) dr off = Some e ->
@@ -275,9 +61,6 @@ Proof.
 Qed.
 
 (* ---- never increases, at most one defined downlink data-rate per step ------- *)
-
-Definition step_check (c : band_cfg) (dr off : Z) : bool :=
-  rx1_step_rule (c_tab c) off (get_rx1_dr c dr (off - 1)) (get_rx1_dr c dr off).
 
 Lemma step_check_all : all_cells step_check = true.
 Proof. vm_compute. reflexivity. Qed.
@@ -301,20 +84,6 @@ Proof.
 Qed.
 
 (* ---- RX1 channel and frequency --------------------------------------------------- *)
-
-Definition channel_check : bool :=
-  forallb (fun c =>
-    match region_of (c_name c) with
-    | None => false
-    | Some reg =>
-      let t := c_tab c in
-      forallb (fun i =>
-        match zindex (t_up t) i with
-        | Ok u => rx1_channel_ok reg (t_down t) i (ch_freq u)
-                                 (get_rx1_channel_index c i) (get_rx1_frequency c (ch_freq u))
-        | _ => false
-        end) (zrange 0 (zlen (t_up t) - 1))
-    end) band_configs.
 
 Lemma channel_check_ok : channel_check = true.
 Proof. vm_compute. reflexivity. Qed.
@@ -351,14 +120,6 @@ Qed.
 
 (* ---- ping slot --------------------------------------------------------------------- *)
 
-Definition ping_check : bool :=
-  forallb (fun c =>
-    match region_of (c_name c) with
-    | None => false
-    | Some reg =>
-      forallb (fun k => outcome_eqb Z.eqb (ping_slot_at c k) (Ok (spec_ping_slot_at reg k))) (zrange 0 7)
-    end) band_configs.
-
 Lemma ping_check_ok : ping_check = true.
 Proof. vm_compute. reflexivity. Qed.
 
@@ -385,33 +146,4 @@ Proof.
   rewrite forallb_forall in H.
   assert (Hin : In k (zrange 0 7)) by (apply zrange_In; lia).
   specialize (H k Hin). now apply oz_eqb_eq.
-Qed.
-
-(* ---- defaults / RX2 -------------------------------------------------------------------- *)
-
-Definition defaults_check : bool :=
-  forallb (fun c =>
-    match region_of (c_name c) with
-    | None => false
-    | Some reg =>
-      defaults_eqb (get_defaults c) (c_defaults c) && rx2_ok reg (c_tab c) (get_defaults c)
-    end) band_configs.
-
-Lemma defaults_check_ok : defaults_check = true.
-Proof. vm_compute. reflexivity. Qed.
-
-Lemma defaults_eqb_eq a b : defaults_eqb a b = true -> a = b.
-Proof.
-  destruct a, b. unfold defaults_eqb. cbn. rewrite !andb_true_iff, !Z.eqb_eq.
-  intros [[[[[? ?] ?] ?] ?] ?]. now subst.
-Qed.
-
-Lemma rx2_defaults c : In c band_configs -> forall reg, region_of (c_name c) = Some reg ->
-  get_defaults c = c_defaults c /\ get_defaults c = spec_defaults reg
-  /\ dr_defined_down (c_tab c) (d_rx2_dr (get_defaults c)) = true.
-Proof.
-  intros Hc reg Hreg. pose proof defaults_check_ok as H. unfold defaults_check in H.
-  rewrite forallb_forall in H. specialize (H c Hc). rewrite Hreg in H.
-  unfold rx2_ok in H. rewrite !andb_true_iff in H. destruct H as [H1 [H2 H3]].
-  repeat split; auto using defaults_eqb_eq.
 Qed.
